@@ -463,6 +463,10 @@ func LAccesses(p *Prog, fns []*ssa.Function) []LAccess {
 					}
 					if g, ok := x.X.(*ssa.Global); ok && InModulePkg(g.Pkg) {
 						add(in, "global:"+shortPkg(g.Pkg.Pkg.Path())+"."+g.Name(), false, "read", "")
+					} else if fa, isFA := x.X.(*ssa.FieldAddr); isFA && globalOf(fa) != nil && InModulePkg(globalOf(fa).Pkg) {
+						// a field of a package-level struct variable (`cur.store`, `cur.height`) is a read of that variable
+						g := globalOf(fa)
+						add(in, "global:"+shortPkg(g.Pkg.Pkg.Path())+"."+g.Name(), false, "read of a field", "")
 					} else if loc, ok := longLivedFieldRef(p, x.X); ok {
 						// reading a reference-typed field (map, slice, pointer) of a by-value copy still reads the shared object
 						// … and a scalar field of the copy is the value the long-lived struct held when the method was called
